@@ -1203,3 +1203,4 @@ Proof.
   pose proof (flip_invalid_id wordsum pk 10 (i / 8)%nat d wordsum_sumlike ltac:(lia) Lj Dd B B' G) as FI. cbv zeta in FI. fold pk' in FI. rewrite FI.
   rewrite fold_reference_plain; auto; [apply bytes_ok_put16; auto; lia|rewrite put16_length; lia].
 Qed.
+
